@@ -292,6 +292,7 @@ type TLG struct {
 	paramPostT  map[*ssa.Function][]AV // ... when its single boolean result is true (a predicate: validID(id))
 	paramPostF  map[*ssa.Function][]AV // ... when it is false
 	paramT      map[*ssa.Function][]AV
+	paramElemT  map[*ssa.Function][]string // slice parameters whose elements are peer-derived at some call site (its source)
 	fieldT      map[*types.Var]string // integer field -> source description
 	fieldElemT  map[*types.Var]string
 	changed     bool
@@ -316,7 +317,7 @@ func (c *Ctx) TLG() *TLG {
 	if c.tlg != nil {
 		return c.tlg
 	}
-	t := &TLG{c: c, ret: map[*ssa.Function][]AV{}, retOK: map[*ssa.Function][]AV{}, paramPost: map[*ssa.Function][]AV{}, paramPostOK: map[*ssa.Function][]AV{}, paramPostT: map[*ssa.Function][]AV{}, paramPostF: map[*ssa.Function][]AV{}, paramT: map[*ssa.Function][]AV{}, fieldT: map[*types.Var]string{},
+	t := &TLG{c: c, ret: map[*ssa.Function][]AV{}, retOK: map[*ssa.Function][]AV{}, paramPost: map[*ssa.Function][]AV{}, paramPostOK: map[*ssa.Function][]AV{}, paramPostT: map[*ssa.Function][]AV{}, paramPostF: map[*ssa.Function][]AV{}, paramT: map[*ssa.Function][]AV{}, paramElemT: map[*ssa.Function][]string{}, fieldT: map[*types.Var]string{},
 		fieldElemT: map[*types.Var]string{}, Sources: map[string]int{}, pure: map[*ssa.Function]bool{}}
 	for _, f := range c.Funcs() {
 		if inPkgs(f, "data/...", "level/block", "level/biome", "level/item", "level/entity") {
@@ -534,9 +535,16 @@ func (t *TLG) analyze(fn *ssa.Function) {
 		ords: map[string]int{}, sinks: map[ssa.Instruction]map[string]*Sink{}, loadAt: map[string][2]int{}, loadKey: map[string]string{}, vals: map[string]ssa.Value{}}
 	entry := tstate{}
 	pt := t.paramT[fn]
+	pe := t.paramElemT[fn]
 	for i, p := range fn.Params {
 		tr := typeRange(p.Type(), a.sizes)
 		if tr == nil {
+			// a slice parameter some caller hands a buffer of peer-derived elements
+			if sl, ok := p.Type().Underlying().(*types.Slice); ok && i < len(pe) && pe[i] != "" {
+				if er := typeRange(sl.Elem(), a.sizes); er != nil {
+					entry["L:"+a.sliceKey(p)+"[]"] = AV{T: er, Src: pe[i]}
+				}
+			}
 			continue
 		}
 		av := AV{P: tr, PExt: true}
@@ -2089,6 +2097,33 @@ func (a *fnAn) instr(in ssa.Instruction, st tstate, collect bool) {
 							}
 						}
 					}
+					// "return n, check(n)": when the error the check returns is nil, n is what the check
+					// lets through (its parameter facts at its nil-error exits)
+					if cc, ok := x.Results[len(x.Results)-1].(*ssa.Call); ok {
+						if g := cc.Common().StaticCallee(); g != nil && a.t.c.P.InModule(g) {
+							if post, ok := a.t.paramPostOK[core.Origin(g)]; ok {
+								for j, arg := range cc.Common().Args {
+									if j >= len(post) || (arg != r && stripConv(arg) != stripConv(r)) {
+										continue
+									}
+									all := post[j].all()
+									if all == nil {
+										continue
+									}
+									if okv.T != nil {
+										if m := meet(okv.T, all); m != nil {
+											okv.T = m
+										}
+									}
+									if okv.P != nil {
+										if m := meet(okv.P, all); m != nil {
+											okv.P = m
+										}
+									}
+								}
+							}
+						}
+					}
 					a.retOK[i] = joinAV(a.retOK[i], okv)
 				}
 			}
@@ -2595,10 +2630,19 @@ func (a *fnAn) propagateParams(in ssa.Instruction, cc *ssa.CallCommon, st tstate
 	args = append(args, cc.Args...)
 	anyT := false
 	avs := make([]AV, len(args))
+	elemSrc := make([]string, len(args)) // slices whose elements are peer-derived (a buffer filled by a read)
 	for i, arg := range args {
 		if isIntegerType(arg.Type(), a.sizes) {
 			avs[i] = a.eval(arg, st)
 			if avs[i].T != nil {
+				anyT = true
+			}
+		} else if sl, ok := arg.Type().Underlying().(*types.Slice); ok && isIntegerType(sl.Elem(), a.sizes) {
+			if ev, ok := st["L:"+a.sliceKey(arg)+"[]"]; ok && ev.T != nil {
+				elemSrc[i] = ev.Src
+				if elemSrc[i] == "" {
+					elemSrc[i] = "elements of a buffer passed by " + core.FnName(a.fn)
+				}
 				anyT = true
 			}
 		}
@@ -2610,6 +2654,22 @@ func (a *fnAn) propagateParams(in ssa.Instruction, cc *ssa.CallCommon, st tstate
 		g0 := core.Origin(g)
 		if !a.t.c.P.InModule(g0) || len(g0.Blocks) == 0 {
 			continue
+		}
+		for i := range args {
+			if elemSrc[i] == "" || i >= len(g0.Params) {
+				continue
+			}
+			pe := a.t.paramElemT[g0]
+			if len(pe) < len(g0.Params) {
+				n := make([]string, len(g0.Params))
+				copy(n, pe)
+				pe = n
+				a.t.paramElemT[g0] = pe
+			}
+			if pe[i] == "" {
+				pe[i] = elemSrc[i]
+				a.t.changed = true
+			}
 		}
 		pt := a.t.paramT[g0]
 		if len(pt) < len(g0.Params) {
